@@ -118,6 +118,9 @@ func cmdHist(args []string) int {
 	if f.Extra["features"] == "mixed" {
 		prof.Features = []Feat{allOn, {true, true, false, false, true}, {true, false, true, true, false}, {false, false, true, false, true}, {true, true, true, true, false}}
 	}
+	if f.Extra["features"] == "pcev" {
+		prof.Features = []Feat{allOn, {true, true, false, false, false}, {true, true, true, false, true}}
+	}
 	if f.Extra["adversarial"] == "1" {
 		prof.AdversarialKV = true
 	}
